@@ -420,6 +420,10 @@ func (m *c09LendMon) handOverGen1(pre, post *c08Snap, preA, postA *c09Aux, b len
 	hi := new(big.Rat).Mul(new(big.Rat).SetInt(sells), new(big.Rat).Add(big.NewRat(1, 1), c08DecRat(par.LiquidationBonus)))
 	hi.Add(hi, big.NewRat(2, 1))
 	w["custody_delta"], w["auction_sells"], w["bonus"] = got.String(), sells.String(), par.LiquidationBonus.String()
+	if got.Cmp(b.AmountIn.Amount.BigInt()) > 0 {
+		m.rec.Violate("C09/hand-over/borrow-gen1/custody-delta-exceeds-recorded-collateral", fmt.Sprintf("the generation-1 seizure of borrow %d moved %s%s out of the pool into auction custody, the borrow had pledged %s", b.ID, got, in.Denom, b.AmountIn), w)
+		return
+	}
 	if au.OutflowTokenInitAmount.Denom != in.Denom || got.Cmp(sells) < 0 || new(big.Rat).SetInt(got).Cmp(hi) > 0 {
 		m.rec.Violate("C09/hand-over/borrow-gen1/custody-delta-differs-from-auctioned-collateral", fmt.Sprintf("generation-1 auction custody of %s changed by %s, the auction sells %s (bonus %s)", in.Denom, got, au.OutflowTokenInitAmount, par.LiquidationBonus), w)
 	}
